@@ -67,9 +67,66 @@ def run_acceptor(traces, verdict, pid, max_report=3, exe=None):
             if rej - sum(unrepro.values()) <= max_report and sc is not None:
                 verdict.violation({"kind": "request-stream-rule", "rule": reason, "rejected_event_index": f[2], "rejected_event": f[3:-1],
                                    "scenario": sc, "events": lines[: int(f[2]) + 1][-60:] if f[2].isdigit() else lines[-60:]})
+    # final abstract state of the acceptor vs the real store's MVCC records (ties the per-transaction store abstraction)
+    cmp_n = cmp_bad = 0
+    for l in out.splitlines():
+        f = l.split("\t")
+        if len(f) < 6 or f[0] != "STATE" or f[1] not in idx:
+            continue
+        sc, r, lines = idx[f[1]]
+        audit = r.get("audit") or r.get("audit_pre") or {}
+        try:
+            S = int(f[2], 16)
+        except ValueError:
+            continue
+        _, keyid = txnlab.project(sc, r)
+        name_of = {("%x" % v): bytes.fromhex(k).decode(errors="replace") for k, v in keyid.items()}
+        kfield = next((x for x in f if x.startswith("keys=")), "keys=")[5:]
+        if sc.get("program"):
+            muts = txnlab.program_mutations(sc, r).get(S, {})
+        else:
+            muts = txnlab.expected_mutations(sc["txn"]) if sc.get("txn", {}).get("ops") and S == r.get("start_ts") else {}
+        for item in [x for x in kfield.split(",") if x]:
+            kid, _, kst = item.partition(":")
+            kname = name_of.get(kid)
+            a = audit.get(kname) if kname else None
+            if a is None or a.get("err"):
+                continue
+            has_lock = bool(a.get("lock")) and a["lock"].get("start") == S
+            commits = [w["commit"] for w in a.get("writes", []) if w["start"] == S and w["type"] in ("Put", "Delete", "Del", "Lock")]
+            alts = kst.split("|")
+            if muts.get(kname) == "cne":
+                # the model has no mutation kinds: a prewritten CheckNotExists key stays "locked" there, the store never locks it
+                cmp_n += 1
+                if has_lock or commits:
+                    cmp_bad += 1
+                    verdict.violation({"kind": "correspondence", "correspondence": "CheckNotExists key left a record", "scenario": sc, "key": kname,
+                                       "store": {"lock": a.get("lock"), "writes": a.get("writes")}}, has_input=False)
+                continue
+            ok = False
+            for alt in alts:
+                if alt.startswith("committed:"):
+                    c = int(alt.split(":")[1], 16)
+                    # unistore writes no record for a committed lock-only key
+                    if c in commits or (muts.get(kname) == "lock" and not has_lock):
+                        ok = True
+                elif alt.startswith("locked"):
+                    ok = ok or has_lock
+                elif alt.startswith("rolledback") or alt.startswith("unlocked"):
+                    ok = ok or (not has_lock and not commits)
+                else:
+                    ok = True
+            cmp_n += 1
+            if not ok:
+                cmp_bad += 1
+                if cmp_bad <= 2:
+                    verdict.violation({"kind": "correspondence", "correspondence": "Percolator acceptor's abstract store vs MvccGetByKey", "scenario": sc, "txn": f[2], "key": kname,
+                                       "model_state": kst, "store": {"lock": a.get("lock"), "writes": a.get("writes")},
+                                       "what": "after an accepted trace the abstract per-transaction store state differs from the real store"}, has_input=False)
     if rc != 0 and acc + rej == 0:
         verdict.violation({"kind": "harness", "correspondence": "Percolator acceptor run", "error": out[-500:]}, has_input=False)
-    return {"traces_validated_against_impl": acc + rej, "acceptor_accepted": acc, "acceptor_rejected": rej, "acceptor_reject_reasons": reasons, "acceptor_rejections_not_reproduced": unrepro}
+    return {"traces_validated_against_impl": acc + rej, "acceptor_accepted": acc, "acceptor_rejected": rej, "acceptor_reject_reasons": reasons, "acceptor_rejections_not_reproduced": unrepro,
+            "acceptor_state_vs_store_compared": cmp_n, "acceptor_state_vs_store_mismatches": cmp_bad}
 
 
 def thorough_coqchk(module, cov, verdict):
